@@ -61,9 +61,10 @@ claim('C13', 'Mixed, mostly proved: find_head, find_headers_and_entries (top-lev
       '_doms/_post_doms/_find_dominators_internal and _imm_doms are compared with brute-force path-based definitions on all small digraphs (bounded).',
       TB + '; axiom R-ind (closure principle of reachability) assumed; find_headers_and_entries proved for region kind "meta" only (the recursion through the '
       'parent region is bounded)', PROOF_PLUS_BOUNDED, '5.C13')
-claim('C14', 'Mixed, mostly proved: all value-level clauses of insert_block and its four typed wrappers, add_block, remove_blocks and '
+claim('C14', 'Mixed, mostly proved: all value-level clauses of insert_block and its four typed wrappers, insert_block_and_control_blocks (each re-routed arc gets its own '
+      'assignment block whose constant the new head maps back to the arc\'s original target), join_returns, join_tails_and_exits, add_block, remove_blocks and '
       'SyntheticBranch.replace_jump_targets are discharged for all inputs (exact re-routing, order of remaining successors, positional replacement, frame); '
-      'region predecessors and edit sequences are bounded.', TB + '; R3 (predecessor with a declared back edge) is a recorded finding, proved on its complement',
+      'region predecessors (hierarchy clause, checked at every internal call) and edit sequences are bounded.', TB + '; R3 (predecessor with a declared back edge) is a recorded finding, proved on its complement',
       PROOF_PLUS_BOUNDED, '5.C14')
 claim('C15', 'Bounded + finite: registry coverage and a per-class field round trip are decided completely over the block classes (E3); dictionary/YAML round trips and '
       'write-read-write-read chains are executed on every enumerated closed CFG at every stage prefix and on bytecode graphs (bounded). to_dict/from_dict are tier B.',
